@@ -143,6 +143,7 @@ def match_known(f: Finding, known: List[dict]) -> Optional[dict]:
 # driver
 
 CHECKS: Dict[str, Callable[[Repo, str], Result]] = {}
+STRUCTURAL_RULES = {"R-REBIND", "R-PURGE"}
 
 
 def register(prop: str):
@@ -249,10 +250,14 @@ def run_check(prop: str, tier: str = "quick", replay: Optional[str] = None) -> i
                 continue
             seen.add(f.key())
             why = tainted.get((f.module, f.function))
+            if why is None and f.rule in STRUCTURAL_RULES and getattr(repo, "residual", None):
+                # rules that recognise one particular shape of one function (and report its absence) cannot look through a helper
+                # that survived inlining (a generator, a loop, recursion): the interprocedural rules can and are not affected
+                why = repo.relies_on_residual_function(f.module, f.function)
             if why is not None and match_known(f, known) is None:
                 # the function relies on a helper / helper class outside the pinned decomposition that could not be inlined: the rule
                 # has not seen the whole computation, so its report is not a witness
-                res.errors.append(f"{f.module}:{f.line} {f.rule} {f.function}: undecided, the function relies on the helper class `{why}` ({repo.residual[why]}), which is not part of the pinned decomposition and could not be dissolved [{f.construct[:80]}]")
+                res.errors.append(f"{f.module}:{f.line} {f.rule} {f.function}: undecided, the function relies on the helper `{why}` ({repo.residual[why]}), which is not part of the pinned decomposition and could not be dissolved [{f.construct[:80]}]")
                 continue
             e = match_known(f, known)
             if e is not None:
